@@ -3,7 +3,8 @@
    quantified; what is assumed about them is written as a premise of the theorem that needs it. *)
 From Coq Require Import List Arith NArith Bool.
 From Coq.Strings Require Import Byte.
-From EV Require Import Base.Bytes Gen.Tables Model.Taproot Proofs.Taproot.
+From Coq Require Import ZArith Permutation.
+From EV Require Import Base.Bytes Gen.Tables Model.Taproot Model.Huffman Proofs.Taproot Proofs.Huffman.
 Import ListNotations.
 
 (* ---- the builder, fed the depth-first walk of any tree of height <= 128, ends with exactly one node: the tree's sorted-pair
@@ -86,3 +87,55 @@ Theorem C15_cb_binding : forall (Hleaf Hbranch Htweak : bytes -> bytes) (scalar_
    tweak P (Htweak (P ++ cb_root Hleaf Hbranch c s)) = Some (si_outkey i, negb (si_parity i))).
 Proof. intros Hleaf Hbranch Htweak scalar_ok tweak tweak_check HL HB TS TI t P i c s.
   exact (cb_binding Hleaf Hbranch Htweak scalar_ok tweak tweak_check HL HB TS TI t P i c s). Qed.
+
+(* ---- completeness: the builder is left complete ONLY by the depth-first walk of a tree of height <= 128, and the walk
+   determines the tree; everything else is refused with a TaprootBuilderError (by an add_* call: InvalidMerkleTreeDepth,
+   NodeNotInDfsOrder, OverCompleteTree; or by finalize: IncompleteTree, EmptyTree) — never accepted, and finalize's `expect`
+   cannot fire on a state reached through the API *)
+Theorem C15_builder_complete : forall (Hleaf Hbranch : bytes -> bytes) (items : list item) (b : br),
+  run Hleaf Hbranch items [] = Ok b -> is_complete b = true ->
+  exists t, (height t <= MAXD)%nat /\ items = dfs t 0 /\ b = [Some (node_of Hleaf Hbranch t)] /\ forall t', items = dfs t' 0 -> t' = t.
+Proof. exact builder_complete. Qed.
+Theorem C15_refuses_others : forall (Hleaf Hbranch Htweak : bytes -> bytes) (scalar_ok : bytes -> bool)
+  (tweak : bytes -> bytes -> option (bytes * bool)) (items : list item) (P : bytes),
+  (forall t, (height t <= MAXD)%nat -> items <> dfs t 0) ->
+  exists e, build Hleaf Hbranch Htweak scalar_ok tweak items P = Fail e.
+Proof. exact build_refuses. Qed.
+Theorem C15_accepts_trees : forall (Hleaf Hbranch Htweak : bytes -> bytes) (scalar_ok : bytes -> bool)
+  (tweak : bytes -> bytes -> option (bytes * bool)) (t : tree) (P : bytes), (height t <= MAXD)%nat ->
+  build Hleaf Hbranch Htweak scalar_ok tweak (dfs t 0) P = from_node_info Htweak scalar_ok tweak P (node_of Hleaf Hbranch t).
+Proof. exact build_accepts. Qed.
+(* F16 (C10 territory, recorded here): a state only serde can produce makes finalize panic in the model as in the code *)
+Example C15_F16_model : forall Htweak scalar_ok tweak P, finalize Htweak scalar_ok tweak [None] P = Panic BuilderInvariant.
+Proof. reflexivity. Qed.
+
+(* ---- key pair: over an abstract group (generator multiples mulG, addition, negation, x-only serialisation, even-Y lift) with the
+   laws below, UntweakedKeypair::tap_tweak yields the secret whose x-only public key and parity are exactly what
+   UntweakedPublicKey::tap_tweak computes from the pair's public key *)
+Theorem C15_keypair : forall (Htweak : bytes -> bytes) (scalar_ok : bytes -> bool) (pt : Type) (padd : pt -> pt -> pt) (pneg : pt -> pt)
+  (mulG : Z -> pt) (xonly_of : pt -> option (bytes * bool)) (lift_x : bytes -> option pt),
+  (forall a b, mulG (a + b)%Z = padd (mulG a) (mulG b)) -> (forall a, mulG (- a)%Z = pneg (mulG a)) ->
+  (forall s x par, xonly_of (mulG s) = Some (x, par) -> lift_x x = Some (if par then pneg (mulG s) else mulG s)) ->
+  forall (sk : Z) (root : option bytes) (sk' : Z),
+  keypair_tap_tweak Htweak scalar_ok pt mulG xonly_of sk root = Val sk' ->
+  exists P par0 Q par, kp_xonly pt mulG xonly_of sk = Some (P, par0) /\
+    tap_tweak Htweak scalar_ok (xonly_tweak pt padd mulG xonly_of lift_x) P root = Val (Q, par) /\
+    kp_xonly pt mulG xonly_of sk' = Some (Q, par).
+Proof. exact keypair_tweak_is_secret. Qed.
+
+(* ---- Huffman: with_huffman_tree never panics in its loop; it refuses only the empty list and trees deeper than 128; when it
+   succeeds the result IS the builder's result on the walk of a hidden-free tree of height <= 128 whose leaves are exactly the
+   input scripts (default version), each at depth < n — so every control-block theorem above applies to it *)
+Theorem C15_huffman_shape : forall (Hleaf Hbranch Htweak : bytes -> bytes) (scalar_ok : bytes -> bool)
+  (tweak : bytes -> bytes -> option (bytes * bool)) (P : bytes) (ws : list (N * bytes)),
+  match with_huffman_tree Hleaf Hbranch Htweak scalar_ok tweak P ws with
+  | Val i => ws <> [] /\
+      exists t, no_hidden t /\ (height t <= MAXD)%nat /\ build Hleaf Hbranch Htweak scalar_ok tweak (dfs t 0) P = Val i /\
+                Permutation (map (fun l => (l_script l, l_ver l)) (leaf_paths Hleaf Hbranch t)) (map (fun ws => (snd ws, default_ver)) ws) /\
+                Forall (fun l => (length (l_branch l) < length ws)%nat) (leaf_paths Hleaf Hbranch t)
+  | Fail e => (ws = [] /\ e = IncompleteTree) \/ (ws <> [] /\ e = InvalidMerkleTreeDepth (N.of_nat MAXD))
+  | Panic s => s = ScalarRange \/ s = TweakFailed
+  end.
+Proof. intros. pose proof (with_huffman_outcomes Hleaf Hbranch Htweak scalar_ok tweak P ws) as O.
+  destruct (with_huffman_tree Hleaf Hbranch Htweak scalar_ok tweak P ws) as [i| |] eqn:E; try exact O.
+  split; [exact O|]. exact (with_huffman_is_build Hleaf Hbranch Htweak scalar_ok tweak P ws i E). Qed.
